@@ -22,14 +22,32 @@ _keep = []
 
 def mk_val(v, ffi=None):
     t = v[0]
-    if t == "cdata":                      # an array cdata of exactly len(data) bytes
+    if t == "cdata":                      # an array cdata whose items hold exactly the bytes `data`
         data = bytes.fromhex(v[1])
-        if v[2] == "short" and len(data) % 2 == 0:
-            x = ffi.new("short[%d]" % (len(data) // 2))
-        else:
-            x = ffi.new("char[%d]" % len(data))
-        ffi.memmove(x, data, len(data))
-        _keep.append(x)
+        item = v[2] if len(data) % {"char": 1, "short": 2}[v[2]] == 0 else "char"
+        isz = {"char": 1, "short": 2}[item]
+        k = len(data) // isz
+        how = v[3] if len(v) > 3 else "fixed"
+        if how == "fixed":                # T[k]: the ctype records its size
+            x = ffi.new("%s[%d]" % (item, k))
+            ffi.memmove(x, data, len(data))
+            _keep.append(x)
+        elif how == "new_open":           # ffi.new('T[]', k): open array type, length in the cdata
+            x = ffi.new("%s[]" % item, k)
+            ffi.memmove(x, data, len(data))
+            _keep.append(x)
+        elif how == "slice":              # p[2:2+k], a view into a larger owned array
+            big = ffi.new("%s[]" % item, k + 12)
+            ffi.memmove(big + 2, data, len(data))
+            _keep.append(big)
+            x = big[2:2 + k]
+        else:                             # ffi.from_buffer('T[]', <k items inside a larger bytearray>)
+            ba = bytearray(len(data) + 24)
+            ba[8:8 + len(data)] = data
+            _keep.append(ba)
+            x = ffi.from_buffer("%s[]" % item, memoryview(ba)[8:8 + len(data)])
+            _keep.append(x)
+        assert len(x) == k and ffi.typeof(x).kind == "array"
         return x
     if t == "cdataptr":                   # a pointer cdata with len(data) bytes behind it
         data = bytes.fromhex(v[1])
